@@ -517,6 +517,29 @@ theorem dtpDuration_leading_blank_witness :
     dtpMatchDuration [⟨⟨5, 7⟩, false, none, false, 0, false, some ⟨0, 4, true⟩, none, [], 0, true, false, none, none, none⟩]
       = [⟨0, 12⟩] ∧ (⟨0, 12⟩ : Tok).Inside 14 ∧ (12 : Int) < 2 + (5 + 7) := by decide
 
+/-- REPAIRED variant (dtp-duration-leading-blank.diff), full strength: in a text with `lead` leading and `trail`
+trailing blanks around a stripped text of length `n` every token lies inside the text, and the stripped-text token
+`u` it comes from is the same characters (`[u.start + lead, u.stop + lead)` of the text = `[u.start, u.stop)` of the
+stripped text) — so the prefix-path tokens end exactly where the duration ends. -/
+theorem dtpMatchDurationV_fixed_inside (n lead trail : Int) (v : V2) (hv : v.dtpDurShift = true) (hl : 0 ≤ lead)
+    (htr : 0 ≤ trail) (fs : List DtpDurFact) (h : ∀ f ∈ fs, DtpDurOK n f)
+    (hg : ∀ f ∈ fs, optP f.prevSuffix (fun c => c.succ = true → c.idx + c.len + 1 ≤ n - (f.dur.start + f.dur.len))) :
+    ∀ t ∈ dtpMatchDurationV v lead fs, t.Inside (lead + n + trail) ∧
+      ∃ u ∈ dtpMatchDuration fs, t.start = u.start + lead ∧ t.stop = u.stop + lead := by
+  intro t ht
+  unfold dtpMatchDurationV at ht
+  simp only [hv, ↓reduceIte, List.mem_map] at ht
+  obtain ⟨u, hu, rfl⟩ := ht
+  obtain ⟨a, b, c⟩ := dtpMatchDuration_inside_partial n fs h hg u hu
+  refine ⟨?_, u, hu, rfl, rfl⟩
+  unfold Tok.Inside; simp only; omega
+
+/-- … on the facts of `"  past 3 hours"` the repaired variant yields `[2, 14)` = `"past 3 hours"`. -/
+theorem dtpDuration_fixed_witness :
+    dtpMatchDurationV V2.repaired 2
+      [⟨⟨5, 7⟩, false, none, false, 0, false, some ⟨0, 4, true⟩, none, [], 0, true, false, none, none, none⟩] = [⟨2, 14⟩] := by
+  decide
+
 theorem todPick_cases (f : TodFact) : todPick f = f.m1 ∨ todPick f = f.am ∨ todPick f = f.pm := by
   unfold todPick
   cases h1 : f.m1 with
